@@ -75,12 +75,19 @@ def make_creds(rep, has_sys, has_dom, has_proj, spelling, absent, role):
             other = 'system_scope' if spelling == 'system' else 'system'
             c.setdefault(other, None)
         return c
+    legacy = rep == 'values' and spelling == 'system' and has_sys
     ctx = context.RequestContext(
         user_id='u', roles=roles,
-        system_scope='all' if has_sys else None,
+        system_scope='all' if has_sys and not legacy else None,
         domain_id='d1' if has_dom else None,
         project_id='p1' if has_proj else None)
-    return ctx if rep == 'context' else ctx.to_policy_values()
+    if rep == 'context':
+        return ctx
+    values = ctx.to_policy_values()
+    if legacy:
+        # the caller puts the LEGACY key into the policy-values mapping
+        values['system'] = 'all'
+    return values
 
 
 def run(job, seed):
@@ -299,8 +306,6 @@ def _sequences(acc, P, _parser, w, st):
     # caller in between
     for rep, spelling, (has_sys, has_dom) in itertools.product(
             ('dict', 'values'), ('system', 'system_scope'), scopes3):
-        if rep == 'values' and spelling == 'system':
-            continue
         for how in ('name', 'object'):
             enf = P.Enforcer(conf)
             enf.register_default(P.RuleDefault(
@@ -340,8 +345,8 @@ def _rows(acc, P, enf, rule, how, st, enforce_scope, check_allows, override,
     for has_sys, has_dom, has_proj in itertools.product((True, False),
                                                         repeat=3):
         for rep in ('dict', 'context', 'values'):
-            spellings = ('system', 'system_scope') if rep == 'dict' and \
-                has_sys else ('system_scope',)
+            spellings = ('system', 'system_scope') if rep in (
+                'dict', 'values') and has_sys else ('system_scope',)
             absents = ('missing', 'none', 'other-spelling-falsy') \
                 if rep == 'dict' else ('missing',)
             for spelling in spellings:
